@@ -87,6 +87,27 @@ class Chaos(SimAlgo):
         return True
 
 
+class Probe(SimAlgo):
+    """calls the wrapped scheduler (k times on the same date), records the booleans, always lets the stack go on"""
+
+    def __init__(self, sim, spec, inner):
+        SimAlgo.__init__(self, sim, spec)
+        self.inner = inner
+
+    def __deepcopy__(self, memo):
+        c = copy.copy(self)
+        c.inner = copy.deepcopy(self.inner, memo)
+        memo[id(self)] = c
+        return c
+
+    def __call__(self, target):
+        sim = self.sim
+        t = sim.tindex(target.now)
+        res = [bool(self.inner(target)) for _ in range(self.spec.get("calls", 1))]
+        sim.probe_log.append((self.spec["id"], t, self.live(target), res, target.full_name))
+        return True
+
+
 class SetTemp(SimAlgo):
     """user algo that sets temp entries (e.g. temp['cash'] for Rebalance), optionally varying by date"""
 
@@ -139,6 +160,8 @@ def build(bt, spec, sim):
         return Chaos(sim, spec)
     if a == "SetTemp":
         return SetTemp(sim, spec)
+    if a == "Probe":
+        return Probe(sim, spec, build(bt, spec["inner"], sim))
     if a == "Wrap":
         return Wrap(sim, spec, build(bt, spec["inner"], sim))
     if a == "Or":
